@@ -8,6 +8,39 @@ HERE = os.path.dirname(os.path.dirname(os.path.abspath(__file__)))
 
 # id -> (level, technique, text, note, design_ref)
 CHECKS = {
+    'C03': ('exploration',
+            'Hypothesis generation of samples/arrays x amplifier settings x channel requests x overrides; '
+            'reference amplifier law; metamorphic equivalence of batch / sequential / permuted / by-name / '
+            'by-position calls (bitwise)',
+            'Each selected channel is compared with a1*10^(a0*x/r) or x/g evaluated in Python floats (rel. 1e-12) '
+            'under the documented file-value/override rules (incl. a1=0 read as 1); unselected channels '
+            'bit-identical; metadata unchanged; one call == sequential single-channel calls in any order == '
+            'permuted list == by name == by position, bitwise incl. ranges; argument untouched; inconsistent '
+            'lengths refused.',
+            'Trusted: the reference law in pbt/props/c03.py; overrides are kept in the finite-result domain.',
+            'DESIGN.md section 4, C03'),
+    'C06': ('exploration',
+            'Hypothesis generation of curve lists x pairings x requests; reference application of the paired '
+            'curve; permutation / spelling metamorphic relations (bitwise); refusals; stub-driven '
+            'get_transform_fxn callable',
+            'Requested channels are compared with their own curve applied by the oracle (rel. 1e-12), others '
+            'bit-identical, metadata unchanged; permuting the (curve, channel) pairs, switching name/position '
+            'spellings or reversing the request leave the result bitwise identical; uncovered channels and '
+            'length mismatches raise; the callable returned by get_transform_fxn (stub clustering/fitting with '
+            'known curves) equals the direct call.',
+            'Trusted: oracle curve evaluation in Python floats.',
+            'DESIGN.md section 4, C06'),
+    'C07': ('exploration',
+            'Hypothesis float-parameter sweep over integer samples with events at and next to both limits; '
+            'bitwise oracle: transformed limit == transformed saturated event; gate-before == gate-after',
+            'For full-mantissa amplifier and standard-curve parameters, every converted channel limit must be '
+            'bitwise the value an event at the original limit now has (to_rfi, to_rfi+to_mef, '
+            'transform.transform), unconverted channels keep their limits, and the default high_low gate keeps '
+            'the same events before and after conversion. Decided for this numpy build/CPU (recorded in the '
+            'evidence).',
+            'Trusted: high_low default thresholds are the ranges (C08). Bitwise float agreement is '
+            'machine-dependent.',
+            'DESIGN.md section 4, C07'),
     'C05': ('exploration',
             'Hypothesis generation of event sets x bin specifications x fractions x smoothing; invariants '
             'recomputed independently from the returned artefacts; metamorphic relations (permutation, monotone '
